@@ -156,7 +156,9 @@ func CheckC17(env *core.Env, rep *core.Report) *core.Result {
 		c := sel[i]
 		root := env.Sub("imp")
 		variant := i % 4
-		defaultName := i%5 == 2
+		// (not when the start file itself is missing: without -c that is "no configuration here", which is
+		// not an error)
+		defaultName := i%5 == 2 && c.Health[0] != "missing"
 		rootFile := filePath(1)
 		if defaultName {
 			rootFile = "tasks.yaml" // file 1 under the name taskctl looks for by default
